@@ -64,7 +64,10 @@ def run(ctx):
         cases = []
         while len(cases) < n:
             case = gen_case(rng)
-            case['cons'].pop('ghost', None)
+            # constraints on a field the frame does not have: kept for half the cases, outside the model's fields
+            # (they fail verification, so detection must report them too, and leave an output file)
+            ghost = case['cons'].pop('ghost', None)
+            case['ghost'] = ghost if ghost and rng.random() < 0.5 else None
             if not case['cols'] or not any(case['cons'].values()):
                 continue
             if not list(case['cols'].values())[0]['cells']:
@@ -113,9 +116,14 @@ def run(ctx):
             nrows = len(df)
             d = {'fields': {nm: {k: C.json_constraint(k, s) for k, s in cs.items()}
                             for nm, cs in case['cons'].items() if cs}}
+            if case.get('ghost'):
+                d['fields']['ghost'] = {k: C.json_constraint(k, s_) for k, s_ in case['ghost'].items()}
+                ctx.bump('constraints_on_missing_field')
             tc = 'strict' if case['strict'] else 'sloppy'
             opts = dict(per_constraint=True, output_fields=[], write_all=rng.random() < 0.5,
                         index=rng.random() < 0.3, in_place=rng.random() < 0.25)
+            if rng.random() < 0.3:
+                opts['interleave'] = True
             fmt = rng.choice([None, None, 'csv', 'parquet'])
             outpath = os.path.join(work, 'out%d.%s' % (ci, fmt)) if fmt else None
             stale = fmt is not None and rng.random() < 0.5
@@ -123,6 +131,8 @@ def run(ctx):
                 with open(outpath, 'w') as f:
                     f.write('stale,file\n1,2\n')
             desc = dict(describe(case), options={k: v for k, v in opts.items()}, outfile=fmt, stale=stale)
+            if case.get('ghost'):
+                desc['constraints_on_missing_field'] = repr(d['fields']['ghost'])
             ctx.count(repr(desc), nrows > 0)
             ctx.bump('out.%s%s' % (fmt, '.stale' if stale else ''))
             for k_, v_ in opts.items():
@@ -192,6 +202,22 @@ def run(ctx):
                         ctx.fail(desc, 'passing/failing records %r/%r, rows %d, records with a violated constraint %d'
                                  % (v.detection.n_passing_records, v.detection.n_failing_records, nrows, failing_want))
                     rows = list(range(nrows)) if opts['write_all'] else [r for r in range(nrows) if nfail_want[r] > 0]
+                    if len(set(det.columns)) != len(det.columns):
+                        ctx.fail(desc, 'the output frame has repeated columns: %r' % list(det.columns))
+                        continue
+                    if opts.get('interleave'):
+                        # each original field is followed by its own flag columns
+                        names_ = [c_ for c_ in det.columns if c_ not in ('Index', 'RowNumber')]
+                        owner, bad_order = None, []
+                        for c_ in names_:
+                            if c_ in case['cols']:
+                                owner = c_
+                            elif c_.endswith('_ok') and c_ in want_cols:
+                                if owner is None or not c_.startswith(owner + '_') or \
+                                        any(o != owner and len(o) > len(owner) and c_.startswith(o + '_') for o in case['cols']):
+                                    bad_order.append((c_, owner))
+                        if bad_order:
+                            ctx.fail(desc, 'interleaved output: flag columns not after their own field: %r in %r' % (bad_order, names_))
                     # the records are identified by their labels: as the frame's index, or (when an index column was
                     # asked for and written) in that column
                     got_labels = list(det.index)
